@@ -162,6 +162,30 @@ def check_history(ctx, case):
         ('diagonalize', lambda: numeric.diagonalize(np.array([c_op[0], c_op[1]]), np.array([0.3, 0.4]))),
         ('pulse eq', lambda: np.array([p == q])),
     ]
+    # requests on a concatenated pulse with pulse-correlation quantities (created on first use, then
+    # shared by the later calls of the history so that earlier returns are watched across them)
+    pcp = []
+
+    def pc():
+        if not pcp:
+            pcp.append(ff.concatenate((new_pulse(), new_pulse()), omega=omega,
+                                      calc_pulse_correlation_FF=True,
+                                      which=str(rng.choice(['fidelity', 'generalized']))))
+            T.watch('def:pc', pcp[0], pulse_fp)
+        return pcp[0]
+    ops += [
+        ('pc filter function', lambda: pc().get_pulse_correlation_filter_function()),
+        ('pc filter function gen', lambda: pc().get_pulse_correlation_filter_function('generalized')),
+        ('pc control matrix', lambda: pc().get_pulse_correlation_control_matrix()),
+        ('pc infidelity correlations', lambda: ff.infidelity(pc(), S1, omega, which='correlations')),
+        ('pc infidelity correlations S2', lambda: ff.infidelity(pc(), S2, omega, which='correlations')),
+        ('pc infidelity total', lambda: ff.infidelity(pc(), S2, omega)),
+        ('pc decay correlations', lambda: numeric.calculate_decay_amplitudes(
+            pc(), S1, omega, which='correlations')),
+        ('pc cumulant correlations', lambda: numeric.calculate_cumulant_function(
+            pc(), S1, omega, which='correlations')),
+        ('pc filter function total', lambda: pc().get_filter_function(omega)),
+    ]
     failing = [
         ('FAIL spectrum shape', lambda: ff.infidelity(p, np.ones((3, len(omega))), omega), ValueError),
         ('FAIL nonhermitian spectrum', lambda: ff.infidelity(p, S3 + 1j*np.triu(np.ones((2, 2)), 1)[:, :, None],
@@ -204,6 +228,19 @@ def check_history(ctx, case):
                              f'{np.max(np.abs(a - b)):.3g}')
         except Exception as e:   # noqa
             probs.append(f'after the history, {name} raised {type(e).__name__}: {e}')
+    if pcp:
+        freshpc = ff.concatenate((new_pulse(), new_pulse()), omega=omega, calc_pulse_correlation_FF=True)
+        for name, f in (('pc infidelity', lambda x: ff.infidelity(x, S1, omega, which='correlations')),
+                        ('pc filter function', lambda x: x.get_pulse_correlation_filter_function()),
+                        ('pc decay amplitudes', lambda x: numeric.calculate_decay_amplitudes(
+                            x, S1, omega, which='correlations'))):
+            try:
+                a, b = f(pcp[0]), f(freshpc)
+                if not np.allclose(a, b, rtol=1e-9, atol=1e-12):
+                    probs.append(f'after the history, {name} differs from a fresh concatenation by '
+                                 f'{np.max(np.abs(a - b)):.3g}')
+            except Exception as e:   # noqa
+                probs.append(f'after the history, {name} raised {type(e).__name__}: {e}')
     ch = T.changed()
     if ch:
         probs.append(f'final: modified {ch}')
